@@ -3,7 +3,7 @@
    runpp_options f stored explicit = net._options after  runpp(net, **explicit)  with
    net.user_pf_options = stored, f = the facts about the net and the installation that the option code reads. *)
 From Coq Require Import ZArith QArith List Bool String.
-From PPV Require Import Base.QN C34.Model C34.Proofs.
+From PPV Require Import Base.QN C34.Model C34.Proofs C34.ModelCtl C34.ProofsCtl.
 Import ListNotations.
 Open Scope string_scope.
 
@@ -12,7 +12,8 @@ Open Scope string_scope.
        runpp_options f stored explicit = runpp_options f (remove_keys (keys explicit) stored) explicit
    i.e. a stored option whose key is passed explicitly has no influence whatsoever on net._options. *)
 
-(* holds under the guard G34 = every explicitly passed named argument differs (python !=) from its default *)
+(* holds under the guard G34 = for every explicitly passed named argument, bool(value != default) evaluates to True
+   (python != incl. list / dict / array values, Model.ne_truth) *)
 Theorem C34_explicit_wins_partial : forall f stored explicit,
   G34 explicit = true ->
   runpp_options f stored explicit = runpp_options f (remove_keys (keys explicit) stored) explicit.
@@ -48,7 +49,7 @@ Print Assumptions C34_explicit_value_visible_refuted.
 Theorem C34_passed_iff : forall explicit k,
   mem k (keys (passed_set explicit))
   = match lookup k named_defaults with
-    | Some d => negb (val_eqb (getd k explicit d) d)
+    | Some d => ne_true (getd k explicit d) d
     | None => mem k (keys explicit)
     end.
 Proof. exact passed_set_char. Qed.
@@ -67,7 +68,7 @@ Print Assumptions C34_stored_applies_when_not_passed.
 (* ... which pins down the recorded defect exactly: an explicit value python-equal to the default loses *)
 Theorem C34_explicit_default_loses : forall f stored explicit k d v s o,
   NoDup (keys stored) ->
-  lookup k named_defaults = Some d -> lookup k explicit = Some v -> val_eqb v d = true ->
+  lookup k named_defaults = Some d -> lookup k explicit = Some v -> ne_true v d = false ->
   lookup k stored = Some s ->
   runpp_options f stored explicit = Ok o ->
   lookup k o = Some s.
@@ -83,3 +84,108 @@ Example C34_nonvacuous :
   mem "max_iteration" (keys (passed_set explicit_nv)) = false.
 Proof. exact nonvacuous. Qed.
 Print Assumptions C34_nonvacuous.
+
+(* ---- composite (list / dict / array / Series) option values in `val != default` (run.py:543) *)
+
+(* every default of the signature is a scalar, so two composite values are never compared *)
+Theorem C34_defaults_scalar : forall k d, lookup k named_defaults = Some d -> is_scalar d = true.
+Proof. exact named_defaults_scalar. Qed.
+Print Assumptions C34_defaults_scalar.
+
+(* list / tuple / dict / object values always differ from the default and never raise: they satisfy the guard *)
+Theorem C34_container_always_passed : forall v d, is_container v = true -> ne_truth v d = Some true.
+Proof. exact container_always_passed. Qed.
+Print Assumptions C34_container_always_passed.
+
+(* arrays: size 1 - the element decides; every other size raises (None = ValueError) *)
+Theorem C34_array_ne_truth : forall l d,
+  ne_truth (VA l) d = match l with [x] => Some (negb (val_eqb x d)) | _ => None end.
+Proof. exact array_ne_truth. Qed.
+Print Assumptions C34_array_ne_truth.
+
+(* a named argument whose comparison raises makes runpp raise ValueError, for every net - but only when user
+   options are stored; without stored options no comparison is evaluated at all *)
+Theorem C34_raising_value_raises : forall f stored explicit k d v,
+  stored <> [] -> lookup k named_defaults = Some d -> lookup k explicit = Some v -> ne_raises v d = true ->
+  runpp_options f stored explicit = Err "ValueError".
+Proof. exact raising_value_raises. Qed.
+Print Assumptions C34_raising_value_raises.
+
+Theorem C34_no_stored_no_comparison : forall f explicit,
+  runpp_options f [] explicit = init_core f (call_named explicit) (call_kwargs explicit) [].
+Proof. exact no_stored_no_comparison. Qed.
+Print Assumptions C34_no_stored_no_comparison.
+
+Example C34_composite_nonvacuous :
+  runpp_options facts0 stored_c [("tolerance_mva", VA [VQ (1 # 100); VQ (1 # 10)])] = Err "ValueError" /\
+  (exists o, runpp_options facts0 [] [("tolerance_mva", VA [VQ (1 # 100); VQ (1 # 10)])] = Ok o
+             /\ lookup "tolerance_mva" o = Some (VA [VQ (1 # 100); VQ (1 # 10)])) /\
+  (exists o, runpp_options facts0 stored_c [("tolerance_mva", VA [VQ tol_default])] = Ok o
+             /\ lookup "tolerance_mva" o = Some (VQ (1 # 1000))) /\
+  (exists o, runpp_options facts0 stored_c [("tolerance_mva", VL [VQ tol_default]); ("recycle", VD [])] = Ok o
+             /\ lookup "tolerance_mva" o = Some (VL [VQ tol_default]) /\ lookup "recycle" o = Some (VD [])).
+Proof. exact composite_nonvacuous. Qed.
+Print Assumptions C34_composite_nonvacuous.
+
+(* ---- the run_control branch of runpp (ModelCtl):
+   runpp_control fs pf steps initial_run stored explicit = (net._options of every inner power flow in order, outcome)
+   of  runpp(net, ** explicit)  with run_control=True and controllers in service;  fs i = facts seen by inner power
+   flow #i, pf i = does it converge, steps = control steps per controller level.
+   plain_explicit explicit = the explicit arguments without run_control / continue_on_divergence / check_each_level /
+   max_iter.  Gctl = no stored option under a key that run_control adds or consumes, caller passes none of
+   recycle / only_v_results / ctrl_variables / run / kwargs. *)
+
+(* the keyword arguments handed to every inner run configure it exactly like the plain call ... *)
+Theorem C34_inner_call_is_plain_call : forall f stored explicit,
+  NoDup (keys explicit) -> Gctl stored explicit = true ->
+  runpp_options f stored (inner_explicit explicit) = runpp_options f stored (plain_explicit explicit).
+Proof. exact inner_call_is_plain_call. Qed.
+Print Assumptions C34_inner_call_is_plain_call.
+
+(* ... the inner call cannot re-enter run_control or take the recycle shortcut ... *)
+Theorem C34_inner_call_takes_plain_branch : forall internal_stored ctrl_in_service explicit,
+  NoDup (keys explicit) ->
+  runpp_branch internal_stored ctrl_in_service (inner_explicit explicit) = BPlain.
+Proof. exact inner_call_takes_plain_branch. Qed.
+Print Assumptions C34_inner_call_takes_plain_branch.
+
+(* ... so EVERY inner power flow of the control loop (initial run, control iterations, the retry after
+   repair_control with continue_on_divergence), whatever converges or diverges, sees the plain call's options *)
+Theorem C34_control_every_inner_run_is_plain : forall fs pf steps initial_run stored explicit i o,
+  NoDup (keys explicit) -> Gctl stored explicit = true ->
+  nth_error (fst (runpp_control fs pf steps initial_run stored explicit)) i = Some o ->
+  o = runpp_options (fs i) stored (plain_explicit explicit).
+Proof. exact control_every_inner_run_is_plain. Qed.
+Print Assumptions C34_control_every_inner_run_is_plain.
+
+(* explicit-wins carries over to every inner run under G34 *)
+Theorem C34_control_explicit_wins_partial : forall fs pf steps initial_run stored explicit i o,
+  NoDup (keys explicit) -> Gctl stored explicit = true -> G34 (plain_explicit explicit) = true ->
+  nth_error (fst (runpp_control fs pf steps initial_run stored explicit)) i = Some o ->
+  o = runpp_options (fs i) (remove_keys (keys (plain_explicit explicit)) stored) (plain_explicit explicit).
+Proof. exact control_explicit_wins_partial. Qed.
+Print Assumptions C34_control_explicit_wins_partial.
+
+(* the guard Gctl is needed: run_control overwrites the caller's only_v_results (and recycle), run_control.py:277 *)
+Theorem C34_control_only_v_results_overwritten :
+  exists o p, runpp_options facts0 [] (inner_explicit explicit_ovr) = Ok o /\
+              runpp_options facts0 [] (plain_explicit explicit_ovr) = Ok p /\
+              lookup "only_v_results" o = Some (VB false) /\ lookup "only_v_results" p = Some (VB true).
+Proof. exact control_only_v_results_overwritten. Qed.
+Print Assumptions C34_control_only_v_results_overwritten.
+
+Theorem C34_control_stored_only_v_results_overruled :
+  exists o p, runpp_options facts0 stored_ovr (inner_explicit [("run_control", VB true)]) = Ok o /\
+              runpp_options facts0 stored_ovr (plain_explicit [("run_control", VB true)]) = Ok p /\
+              lookup "only_v_results" o = Some (VB false) /\ lookup "only_v_results" p = Some (VB true).
+Proof. exact control_stored_only_v_results_overruled. Qed.
+Print Assumptions C34_control_stored_only_v_results_overruled.
+
+Example C34_control_nonvacuous :
+  NoDup (keys explicit_cnv) /\ Gctl stored_cnv explicit_cnv = true /\ G34 (plain_explicit explicit_cnv) = true /\
+  let '(tr, out) := runpp_control (fun _ => facts0) (fun i => negb (Nat.eqb i 1)) [2%nat] true stored_cnv explicit_cnv in
+  List.length tr = 4%nat /\ out = "ok" /\
+  (exists o, nth_error tr 2 = Some (Ok o) /\ lookup "tolerance_mva" o = Some (VQ (1 # 1000000))
+             /\ lookup "max_iteration" o = Some (VZ 25) /\ lookup "numba" o = Some (VB false)).
+Proof. exact control_nonvacuous. Qed.
+Print Assumptions C34_control_nonvacuous.
